@@ -3,7 +3,7 @@ SPEC = dict(
     level="proof",
     # a list: the pipe-level builder appends its observer (full client against the fake server) here
     observers=[dict(cmd="obs_lru", args=["-prop", "C10"], imports=["Model.Lru"], case_type="Lru.case", check="Lru.check_case",
-                    shard=25, n={"quick": 220, "thorough": 4000})],
+                    shard=25, n={"quick": 300, "thorough": 4000})],
     rule="generated histories of 8-45 store operations (Flight, Flights incl. duplicates in one batch, Update with replies "
          "of 1x-8x entryMinSize so that one insert needs several evictions, Cancel, Delete of key sets, flush, Close, GetTTL, "
          "1000-2048 repeated hits to cross the 1024-hit MoveToBack threshold, and operations of other callers run at the "
